@@ -14,6 +14,7 @@ From CF Require Import C15.Proofs_sum.
 From CF Require Import C15.Examples.
 From CF Require Import C15.Heap.
 From CF Require Import C15.Proofs_heap.
+From CF Require Import C15.Proofs_views.
 Import ListNotations.
 Open Scope R_scope.
 
@@ -177,3 +178,47 @@ Theorem C15_identity_fastpath_refuted :
      c = a /\ hget h'' a <> hget h a).
 Proof. exact fastpath_summary. Qed.
 Print Assumptions C15_identity_fastpath_refuted.
+
+(* ---- constructors and getters of the rotation views are mutually inverse on their domains.
+        rot_vec / rot_quat (scipy: from_matrix(R).as_rotvec()/as_quat()) are characterised, not computed: the matrix
+        determines the unit quaternion up to sign (C15_views_unique); the getter works on the representative with
+        w >= 0 (quat_canon) and reads angle = 2 atan2(|v|, w), axis = v/|v| off it (quat_to_rotvec).
+        Domains: |r| < pi for matrix -> rotation vector (at |r| = pi the matrix of r and of -r coincide and w = 0:
+        the axis sign is lost); antipodal quaternions q, -q and any positive or negative multiple give one pose *)
+Theorem C15_view_constructors_getters_inverse :
+  (forall r u, vnorm r < PI -> qnorm2 u = 1 -> quat_mat u = rodrigues r ->
+               quat_to_rotvec (quat_canon u) = r /\ quat_canon u = quat_of_rotvec r) /\
+  (forall r, vnorm r <= PI -> quat_to_rotvec (quat_of_rotvec r) = r) /\
+  (forall r, vnorm r = PI -> qw (quat_of_rotvec r) = 0 /\ rodrigues (vneg r) = rodrigues r) /\
+  (forall c u t, c <> 0 -> qnorm2 u <> 0 -> pose_from_quat (qscale c u) t = pose_from_quat u t) /\
+  (forall u t, qnorm2 u <> 0 -> valid_pose (pose_from_quat u t) /\ mdet (pR (pose_from_quat u t)) = 1) /\
+  (forall u, qnorm2 u = 1 -> quat_normalize u = u).
+Proof. exact views_inverse_summary. Qed.
+Print Assumptions C15_view_constructors_getters_inverse.
+
+(* the constructors called without arguments give the identity pose (F15a was a violation of the second clause) *)
+Theorem C15_constructor_defaults_identity :
+  pose_from_rotvec rodrigues vzero vzero = pose_id /\ pose_from_quat (Q4 0 0 0 1) vzero = pose_id.
+Proof. exact ctor_defaults_identity. Qed.
+Print Assumptions C15_constructor_defaults_identity.
+
+(* Pose.scale(k) composes with the transforms as a uniform scaling of space: scaling poses and points together
+   commutes with every operation; on an unscaled point only the translation part moves; k = 1 is the identity *)
+Theorem C15_scale_laws : forall k P Q x,
+  rotate_translate (pscale k P) (vscale k x) = vscale k (rotate_translate P x) /\
+  inv_rotate_translate (pscale k P) (vscale k x) = vscale k (inv_rotate_translate P x) /\
+  rotate_translate_pose (pscale k P) (pscale k Q) = pscale k (rotate_translate_pose P Q) /\
+  inv_rotate_translate_pose (pscale k P) (pscale k Q) = pscale k (inv_rotate_translate_pose P Q) /\
+  rotate_translate (pscale k P) x = vadd (rotate_translate P x) (vscale (k - 1) (pt P)) /\
+  pscale 1 P = P /\ (valid_pose P -> valid_pose (pscale k P)).
+Proof. exact scale_laws. Qed.
+Print Assumptions C15_scale_laws.
+
+(* the solver's Rodrigues rotation at the half turn |r| = pi (no singularity: cos = -1, sin = 0): reflection about
+   the axis.  Together with C15_projection_paths_agree (all r) and C15_projection_paths_zero_rotation (r = 0, the only
+   branch of the code: nan_to_num / where=theta != 0) this covers every rotation vector; the code has no small-angle
+   branch of its own, scipy's Taylor branch for |r| < 1e-3 is inside the hypothesis `as_matrix r = rodrigues r` *)
+Theorem C15_solver_rotation_half_turn : forall p r t, vnorm r = PI ->
+  solver_rotate_translate p r t = vadd (vsub (vscale (2 * vdot p (axis r)) (axis r)) p) t.
+Proof. exact solver_rt_half_turn. Qed.
+Print Assumptions C15_solver_rotation_half_turn.
